@@ -2,3 +2,4 @@ import ZenoModel.Model.Time
 import ZenoModel.Model.Expr
 import ZenoModel.Model.Seq
 import ZenoModel.Model.SubMerge
+import ZenoModel.Model.Store
